@@ -242,8 +242,11 @@ class DataflowAnalysisAttacher(Transformer):
         defines = OrderedSet()
         uses = OrderedSet(conditions)
         for b in o.bodies:
-            _b, defines, uses = self._visit_body(b, live=live, uses=uses, defines=defines, **kwargs)
+            # The alternatives apply to disjoint sets of elements: symbols defined
+            # in one of them are not defined for the following ones
+            _b, _d, uses = self._visit_body(b, live=live, uses=uses, **kwargs)
             body += (_b,)
+            defines |= _d
 
         default, default_defs, uses = self._visit_body(o.default, live=live, uses=uses, **kwargs)
         o._update(bodies=body, default=default)
